@@ -178,6 +178,10 @@ trait Coll: Sized {
     fn mirror(sub: Self::Sub, max: usize) -> Self::Mirror;
     /// `Mirrored*::subscribe` / `subscribe_incremental` (not offered by the list mirror)
     async fn mirror_subscribe(m: &Self::Mirror, incr: bool, buf: usize) -> Option<Self::Sub>;
+    /// `Mirrored*::subscribe*` started while the caller holds a `borrow()` guard of the same mirror across
+    /// `during` (a call of the observed collection: the mirror's task is then waiting for the write lock with the
+    /// event in its hand); the guard is released only after the subscription call has been polled once
+    async fn subscribe_while_held(m: &Self::Mirror, incr: bool, buf: usize, during: &mut dyn FnMut()) -> Option<Self::Sub>;
     /// `borrow()`: contents, complete, done — or the stored error
     async fn borrow(m: &Self::Mirror) -> Result<(String, bool, bool), String>;
     async fn detach(m: Self::Mirror) -> String;
@@ -432,6 +436,18 @@ impl Coll for CVec {
     async fn mirror_subscribe(m: &Self::Mirror, incr: bool, buf: usize) -> Option<Self::Sub> {
         if incr { m.subscribe_incremental(buf).await.ok() } else { m.subscribe(buf).await.ok() }
     }
+    async fn subscribe_while_held(m: &Self::Mirror, incr: bool, buf: usize, during: &mut dyn FnMut()) -> Option<Self::Sub> {
+        let guard = m.borrow().await.ok();
+        during();
+        settle().await;
+        let mut fut = Box::pin(async move { if incr { m.subscribe_incremental(buf).await.ok() } else { m.subscribe(buf).await.ok() } });
+        let first = std::future::poll_fn(|cx| std::task::Poll::Ready(fut.as_mut().poll(cx))).await;
+        drop(guard);
+        match first {
+            std::task::Poll::Ready(x) => x,
+            std::task::Poll::Pending => fut.await,
+        }
+    }
     async fn borrow(m: &Self::Mirror) -> Result<(String, bool, bool), String> {
         match m.borrow().await {
             Ok(r) => Ok((list_text(r.iter().copied()), r.is_complete(), r.is_done())),
@@ -613,6 +629,18 @@ impl Coll for CDeque {
     }
     async fn mirror_subscribe(m: &Self::Mirror, incr: bool, buf: usize) -> Option<Self::Sub> {
         if incr { m.subscribe_incremental(buf).await.ok() } else { m.subscribe(buf).await.ok() }
+    }
+    async fn subscribe_while_held(m: &Self::Mirror, incr: bool, buf: usize, during: &mut dyn FnMut()) -> Option<Self::Sub> {
+        let guard = m.borrow().await.ok();
+        during();
+        settle().await;
+        let mut fut = Box::pin(async move { if incr { m.subscribe_incremental(buf).await.ok() } else { m.subscribe(buf).await.ok() } });
+        let first = std::future::poll_fn(|cx| std::task::Poll::Ready(fut.as_mut().poll(cx))).await;
+        drop(guard);
+        match first {
+            std::task::Poll::Ready(x) => x,
+            std::task::Poll::Pending => fut.await,
+        }
     }
     async fn borrow(m: &Self::Mirror) -> Result<(String, bool, bool), String> {
         match m.borrow().await {
@@ -899,6 +927,18 @@ impl Coll for CMap {
     async fn mirror_subscribe(m: &Self::Mirror, incr: bool, buf: usize) -> Option<Self::Sub> {
         if incr { m.subscribe_incremental(buf).await.ok() } else { m.subscribe(buf).await.ok() }
     }
+    async fn subscribe_while_held(m: &Self::Mirror, incr: bool, buf: usize, during: &mut dyn FnMut()) -> Option<Self::Sub> {
+        let guard = m.borrow().await.ok();
+        during();
+        settle().await;
+        let mut fut = Box::pin(async move { if incr { m.subscribe_incremental(buf).await.ok() } else { m.subscribe(buf).await.ok() } });
+        let first = std::future::poll_fn(|cx| std::task::Poll::Ready(fut.as_mut().poll(cx))).await;
+        drop(guard);
+        match first {
+            std::task::Poll::Ready(x) => x,
+            std::task::Poll::Pending => fut.await,
+        }
+    }
     async fn borrow(m: &Self::Mirror) -> Result<(String, bool, bool), String> {
         match m.borrow().await {
             Ok(r) => Ok((map_text(&r), r.is_complete(), r.is_done())),
@@ -1029,6 +1069,18 @@ impl Coll for CSet {
     async fn mirror_subscribe(m: &Self::Mirror, incr: bool, buf: usize) -> Option<Self::Sub> {
         if incr { m.subscribe_incremental(buf).await.ok() } else { m.subscribe(buf).await.ok() }
     }
+    async fn subscribe_while_held(m: &Self::Mirror, incr: bool, buf: usize, during: &mut dyn FnMut()) -> Option<Self::Sub> {
+        let guard = m.borrow().await.ok();
+        during();
+        settle().await;
+        let mut fut = Box::pin(async move { if incr { m.subscribe_incremental(buf).await.ok() } else { m.subscribe(buf).await.ok() } });
+        let first = std::future::poll_fn(|cx| std::task::Poll::Ready(fut.as_mut().poll(cx))).await;
+        drop(guard);
+        match first {
+            std::task::Poll::Ready(x) => x,
+            std::task::Poll::Pending => fut.await,
+        }
+    }
     async fn borrow(m: &Self::Mirror) -> Result<(String, bool, bool), String> {
         match m.borrow().await {
             Ok(r) => Ok((set_text(&r), r.is_complete(), r.is_done())),
@@ -1105,6 +1157,10 @@ impl Coll for CList {
         sub.mirror(max)
     }
     async fn mirror_subscribe(_m: &Self::Mirror, _incr: bool, _buf: usize) -> Option<Self::Sub> {
+        None
+    }
+    async fn subscribe_while_held(_m: &Self::Mirror, _incr: bool, _buf: usize, during: &mut dyn FnMut()) -> Option<Self::Sub> {
+        during();
         None
     }
     async fn borrow(m: &Self::Mirror) -> Result<(String, bool, bool), String> {
@@ -1205,16 +1261,19 @@ enum Holder<C: Coll> {
 #[allow(clippy::too_many_arguments)]
 async fn do_sub2<C: Coll>(
     rest: &str, race: bool, holders: &mut Vec<(usize, Holder<C>)>, link: &mut Option<Link<C::Sub>>, sid: &mut usize,
-    f13: &mut HashSet<usize>, st: &mut Stats, out: &mut String,
+    f13: &mut HashSet<usize>, st: &mut Stats, out: &mut String, pre: Option<Option<C::Sub>>,
 ) {
     let w: Vec<&str> = rest.split(' ').collect();
     let src: usize = w[0].parse().unwrap();
     let incr = w[1] == "incr";
     let remote = w[2] == "remote";
     let is_mirror = w[3] == "mirror";
-    let got = match holders.iter().find(|(s, _)| *s == src) {
-        Some((_, Holder::Mirror(m))) if !f13.contains(&src) => C::mirror_subscribe(m, incr, 1_000_000).await,
-        _ => None,
+    let got = match pre {
+        Some(got) => got,
+        None => match holders.iter().find(|(s, _)| *s == src) {
+            Some((_, Holder::Mirror(m))) if !f13.contains(&src) => C::mirror_subscribe(m, incr, 1_000_000).await,
+            _ => None,
+        },
     };
     if let Some(mut sub) = got {
         if remote {
@@ -1323,12 +1382,12 @@ async fn run_c13<C: Coll>(id: &str, script: &[String], r: &mut Rng, st: &mut Sta
             }
             "sub2" => {
                 settle().await;
-                do_sub2::<C>(rest, false, &mut holders, &mut link, &mut sid, &mut f13, st, out).await;
+                do_sub2::<C>(rest, false, &mut holders, &mut link, &mut sid, &mut f13, st, out, None).await;
             }
-            "sub2r" => {
-                // not directly after a call: same as sub2
+            "sub2r" | "sub2h" => {
+                // not directly after / around a call: same as sub2
                 settle().await;
-                do_sub2::<C>(rest, false, &mut holders, &mut link, &mut sid, &mut f13, st, out).await;
+                do_sub2::<C>(rest, false, &mut holders, &mut link, &mut sid, &mut f13, st, out, None).await;
             }
             "gen" => {
                 let c = coll.as_ref().unwrap();
@@ -1340,25 +1399,61 @@ async fn run_c13<C: Coll>(id: &str, script: &[String], r: &mut Rng, st: &mut Sta
                 }
             }
             "op" | "done" => {
+                // `sub2h` right after this call: the call is made while a borrow() guard of the source mirror is held
+                // and the subscription is requested before the guard is released
+                while queue.front().map(|l| l == "gen 0").unwrap_or(false) {
+                    queue.pop_front();
+                }
+                let held_line: Option<String> =
+                    if queue.front().map(|l| l.starts_with("sub2h ")).unwrap_or(false) { queue.pop_front() } else { None };
                 let c = coll.as_mut().unwrap();
                 let was_done = c.is_done();
-                let res = if cmd == "done" {
-                    c.mark_done();
-                    let _ = writeln!(out, "op done");
-                    st.hit("op_done");
-                    Ok(())
-                } else {
-                    let r = catch_unwind(AssertUnwindSafe(|| c.exec(rest)));
-                    match r {
-                        Ok(text) => {
-                            let _ = writeln!(out, "op {text}");
-                            Ok(())
-                        }
-                        Err(_) => {
-                            let _ = writeln!(out, "op {rest}");
-                            Err(())
+                let mut exec_call = |c: &mut C, out: &mut String, st: &mut Stats| -> Result<(), ()> {
+                    if cmd == "done" {
+                        c.mark_done();
+                        let _ = writeln!(out, "op done");
+                        st.hit("op_done");
+                        Ok(())
+                    } else {
+                        let r = catch_unwind(AssertUnwindSafe(|| c.exec(rest)));
+                        match r {
+                            Ok(text) => {
+                                let _ = writeln!(out, "op {text}");
+                                Ok(())
+                            }
+                            Err(_) => {
+                                let _ = writeln!(out, "op {rest}");
+                                Err(())
+                            }
                         }
                     }
+                };
+                let mut held_sub: Option<(String, Option<C::Sub>)> = None;
+                let res = match &held_line {
+                    Some(l) => {
+                        let w: Vec<&str> = l[6..].split(' ').collect();
+                        let src: usize = w[0].parse().unwrap();
+                        let incr = w[1] == "incr";
+                        let mut res = Ok(());
+                        let mut ran = false;
+                        let got = match holders.iter().find(|(s, _)| *s == src) {
+                            Some((_, Holder::Mirror(m))) if !f13.contains(&src) => {
+                                let mut during = || {
+                                    res = exec_call(c, out, st);
+                                    ran = true;
+                                };
+                                C::subscribe_while_held(m, incr, 1_000_000, &mut during).await
+                            }
+                            _ => None,
+                        };
+                        if !ran {
+                            res = exec_call(c, out, st);
+                        }
+                        st.hit("sub2_held");
+                        held_sub = Some((l[6..].to_string(), got));
+                        res
+                    }
+                    None => exec_call(c, out, st),
                 };
                 if cmd == "op" {
                     st.hit(&format!("op_{}_{}", C::NAME, rest.split(' ').next().unwrap()));
@@ -1373,9 +1468,12 @@ async fn run_c13<C: Coll>(id: &str, script: &[String], r: &mut Rng, st: &mut Sta
                 while queue.front().map(|l| l == "gen 0").unwrap_or(false) {
                     queue.pop_front();
                 }
+                if let Some((l, got)) = held_sub.take() {
+                    do_sub2::<C>(&l, true, &mut holders, &mut link, &mut sid, &mut f13, st, out, Some(got)).await;
+                }
                 while queue.front().map(|l| l.starts_with("sub2r ")).unwrap_or(false) {
                     let l = queue.pop_front().unwrap();
-                    do_sub2::<C>(&l[6..], true, &mut holders, &mut link, &mut sid, &mut f13, st, out).await;
+                    do_sub2::<C>(&l[6..], true, &mut holders, &mut link, &mut sid, &mut f13, st, out, None).await;
                 }
                 settle().await;
                 let p = probe.as_mut().unwrap();
@@ -1488,7 +1586,7 @@ fn gen_c13_script<C: Coll>(r: &mut Rng) -> Vec<String> {
                 if l.ends_with("mirror") {
                     mirrors.push(n_sub);
                 }
-                s.push(format!("{} {src} {}", if r.chance(1, 2) { "sub2r" } else { "sub2" }, &l[4..]));
+                s.push(format!("{} {src} {}", *r.pick(&["sub2r", "sub2", "sub2h"]), &l[4..]));
                 n_sub += 1;
             }
         }
